@@ -211,31 +211,101 @@ def groups_of_events(evs):
     return [(g[0], sorted(g[1]), g[2]) for g in gs]
 
 
-def forced_phase(ctx, phase):
-    """TLC enumerates the controller schedules of the lock-level specification; each one is forced on the real
-    ProposalProcessors (calls queue behind a processor parked at a harness gate); the writer's Save log is judged."""
-    quick = ctx.tier == "quick"
-    t0 = time.time()
-    # one TLC run per alphabet: the statement on the lock-level model of the pinned design under free interleaving
-    # (any waiter may win the mutex) and, mode "forced", the controller schedules (printed by EmitSched)
-    scheds = []
-    for cfg in (["BlockSaveLock_mc_quick.cfg"] if quick else ["BlockSaveLock_mc_thorough.cfg", "BlockSaveLock_mc_thorough2.cfg"]):
-        r = ctx.tlc("BlockSaveLock", cfg, timeout=2400)
-        found = re.findall(r'^"SCHED((?: \S+)*)"$', r.out, re.M)
-        if not found:
-            raise core.MachineryError("%s printed no schedule:\n%s" % (cfg, r.out[-2000:]))
-        for h in found:
-            ent = h.split()
-            scheds.append({"id": len(scheds), "cmds": [x[1:] for x in ent if x.startswith(">")], "hist": ent})
-    # the forced schedules can tell "height check under the lock" from "height check before the lock": TLC must
-    # refute the statement for the latter family on the same schedule space
-    r = ctx.tlc("BlockSaveLock", "BlockSaveLock_stale.cfg", timeout=1800, allow_violation=True, count=False)
-    if r.violated != "OncePerHeight":
-        raise core.MachineryError("BlockSaveLock_stale.cfg: the forced schedules do not refute OncePerHeight for a height check "
-                                  "made before the mutex is owned (violated: %s) - the schedule family lost its point" % r.violated)
-    ctx.extra["lock_level_model"] = {"check_before_lock_refuted_in_states": r.distinct}
-    phase["lock_tlc"] = round(time.time() - t0, 1)
+class LockTLC(threading.Thread):
+    """The TLC runs on BlockSaveLock.tla, in the background of the recording / trace-validation phases (they are
+    independent of them): per alphabet one run = the statement on the lock-level model of the pinned design under
+    free interleaving (any waiter may win the mutex) + the controller schedules (mode "forced", printed by
+    EmitSched); and the run that must refute the statement for a height check made before the lock is owned."""
 
+    def __init__(self, ctx):
+        threading.Thread.__init__(self)
+        self.ctx = ctx
+        self.dir = os.path.join(ctx.work, "lockspec")
+        os.makedirs(self.dir)
+        for f in os.listdir(core.SPEC):
+            if f.startswith("BlockSave") and (f.endswith(".tla") or f.endswith(".cfg")):
+                shutil.copy(os.path.join(core.SPEC, f), self.dir)
+        self.cfgs = ["BlockSaveLock_mc_quick.cfg"] if ctx.tier == "quick" else ["BlockSaveLock_mc_thorough.cfg", "BlockSaveLock_mc_thorough2.cfg"]
+        self.workers = 6 if ctx.tier == "quick" else 8
+        self.err = None
+        self.scheds = []
+        self.results = []
+        self.stale = None
+        self.wall = 0
+        self.proc = None
+        self.aborted = False
+
+    def tlc(self, cfg, timeout):
+        meta = os.path.join(self.dir, "meta_" + cfg)
+        cmd = ["java", "-XX:+UseParallelGC", "-Xss64m", "-Xmx6g", "-cp", core._classpath(), "tlc2.TLC", "-workers", str(self.workers),
+               "-metadir", meta, "-config", cfg, "BlockSaveLock.tla"]
+        if self.aborted:
+            raise core.MachineryError("aborted")
+        self.proc = subprocess.Popen(cmd, cwd=self.dir, stdout=subprocess.PIPE, stderr=subprocess.STDOUT, text=True)
+        try:
+            out, _ = self.proc.communicate(timeout=timeout)
+        except subprocess.TimeoutExpired:
+            self.proc.kill()
+            self.proc.communicate()
+            raise core.MachineryError("TLC BlockSaveLock/%s timed out after %ss" % (cfg, timeout))
+        finally:
+            shutil.rmtree(meta, ignore_errors=True)
+        return core.TLCResult(self.proc.returncode, out, 0)
+
+    def abort(self):
+        """another phase failed: do not leave a TLC behind"""
+        self.aborted = True
+        if self.proc is not None and self.proc.poll() is None:
+            self.proc.kill()
+        self.join()
+
+    def run(self):
+        t0 = time.time()
+        try:
+            for cfg in self.cfgs:
+                r = self.tlc(cfg, 3000)
+                if r.rc != 0:
+                    raise core.MachineryError("TLC BlockSaveLock/%s exit %d:\n%s" % (cfg, r.rc, core._tlc_tail(r.out)))
+                found = re.findall(r'^"SCHED((?: \S+)*)"$', r.out, re.M)
+                if not found:
+                    raise core.MachineryError("%s printed no schedule:\n%s" % (cfg, r.out[-2000:]))
+                for h in found:
+                    ent = h.split()
+                    self.scheds.append({"id": len(self.scheds), "cmds": [x[1:] for x in ent if x.startswith(">")], "hist": ent})
+                self.results.append(r)
+            r = self.tlc("BlockSaveLock_stale.cfg", 1800)
+            if r.violated != "OncePerHeight":
+                raise core.MachineryError(
+                    "BlockSaveLock_stale.cfg: the forced schedules do not refute OncePerHeight for a height check made before "
+                    "the mutex is owned (exit %d, violated: %s) - the schedule family lost its point:\n%s" % (r.rc, r.violated, core._tlc_tail(r.out)))
+            self.stale = r
+        except core.MachineryError as e:
+            self.err = e
+        except Exception as e:  # noqa
+            self.err = core.MachineryError("lock-level TLC runs: %r" % (e,))
+        self.wall = round(time.time() - t0, 1)
+
+    def collect(self, phase):
+        t0 = time.time()
+        self.join()
+        phase["lock_tlc_wait"] = round(time.time() - t0, 1)
+        phase["lock_tlc_background"] = self.wall
+        if self.err:
+            raise self.err
+        ctx = self.ctx
+        for cfg, r in zip(self.cfgs, self.results):
+            ctx.states += r.distinct
+            ctx.transitions += r.generated
+            ctx.tlc_cmds.append("tlc -workers %d -config %s BlockSaveLock.tla" % (self.workers, cfg))
+        ctx.tlc_cmds.append("tlc -workers %d -config BlockSaveLock_stale.cfg BlockSaveLock.tla   (must violate OncePerHeight)" % self.workers)
+        ctx.extra["lock_level_model"] = {"check_before_lock_refuted_in_states": self.stale.distinct}
+        return self.scheds
+
+
+def forced_phase(ctx, phase, scheds):
+    """TLC enumerated the controller schedules of the lock-level specification; each one is forced on the real
+    ProposalProcessors (calls queue behind a processor / a block write parked at a harness gate); the writer's Save
+    log is judged."""
     t0 = time.time()
     nshard = 8
     results = {}
@@ -312,32 +382,38 @@ def run(ctx):
                 "lock-level specification with 4 calls over {Process P1, P2 (height 1), P3 (height 2), their agreed Saves, Cancel} "
                 "(quick) / 5 calls over these and 4 calls over 12 calls incl. disagreeing majorities, a failing processor, a proposal "
                 "that is not found (thorough); commands = start a call, open a processor gate, open a block-write gate")
-    t0 = time.time()
-    ctx.tlc("BlockSave", "BlockSave_mc_quick.cfg" if quick else "BlockSave_mc_thorough.cfg", timeout=1200)
-    phase["mc"] = round(time.time() - t0, 1)
-
-    total = unexp_total = saves_total = 0
-    runs = [("exhaustive", ["--mode", "exhaustive", "--depth", 3 if quick else 4]),
-            ("random", ["--mode", "random", "--num", 500 if quick else 6000])]
-    for label, a in runs:
+    lock = LockTLC(ctx)
+    lock.start()
+    try:
         t0 = time.time()
-        tr = os.path.join(ctx.work, "%s.ndjson" % label)
-        ctx.vh(["C11", "record"] + a + ["--out", tr], timeout=2400)
-        events = core.read_ndjson(tr)
-        if not events:
-            raise core.MachineryError("the driver recorded nothing")
-        for (first, evs) in histories(events):
-            canon = [[e["a"], e.get("op"), e.get("f"), e.get("ah"), e.get("nb"), e.get("res"), e.get("h")] for e in evs]
-            ops = set(e.get("op") for e in evs if e["a"] == "Call")
-            ctx.case(canon, nontrivial="Process" in ops and "Save" in ops,
-                     sample=short(evs, None, 30) if label == "random" else None)
-        n, unexp, saves = validate_and_judge(ctx, label, events)
-        ctx.traces += n
-        total += n
-        unexp_total += unexp
-        saves_total += saves
-        phase[label] = round(time.time() - t0, 1)
-    forced_phase(ctx, phase)
+        ctx.tlc("BlockSave", "BlockSave_mc_quick.cfg" if quick else "BlockSave_mc_thorough.cfg", timeout=1200)
+        phase["mc"] = round(time.time() - t0, 1)
+
+        total = unexp_total = saves_total = 0
+        runs = [("exhaustive", ["--mode", "exhaustive", "--depth", 3 if quick else 4]),
+                ("random", ["--mode", "random", "--num", 500 if quick else 6000])]
+        for label, a in runs:
+            t0 = time.time()
+            tr = os.path.join(ctx.work, "%s.ndjson" % label)
+            ctx.vh(["C11", "record"] + a + ["--out", tr], timeout=2400)
+            events = core.read_ndjson(tr)
+            if not events:
+                raise core.MachineryError("the driver recorded nothing")
+            for (first, evs) in histories(events):
+                canon = [[e["a"], e.get("op"), e.get("f"), e.get("ah"), e.get("nb"), e.get("res"), e.get("h")] for e in evs]
+                ops = set(e.get("op") for e in evs if e["a"] == "Call")
+                ctx.case(canon, nontrivial="Process" in ops and "Save" in ops,
+                         sample=short(evs, None, 30) if label == "random" else None)
+            n, unexp, saves = validate_and_judge(ctx, label, events)
+            ctx.traces += n
+            total += n
+            unexp_total += unexp
+            saves_total += saves
+            phase[label] = round(time.time() - t0, 1)
+    except BaseException:
+        lock.abort()
+        raise
+    forced_phase(ctx, phase, lock.collect(phase))
     ctx.extra["histories"] = {"validated": total, "not_explained_by_model": unexp_total, "writer_saves_observed": saves_total}
     if saves_total < 20:
         raise core.MachineryError("only %d BlockWriter.Save calls were observed - the drivers do not reach the save path" % saves_total)
